@@ -175,6 +175,54 @@ prop("C05", "TestC05", "exploration",
      q, t, required_labels=["indel-after-earlier-gap-column", "insertion-abutting-end", "insertion-abutting-start", "deletion-abutting-start",
                             "deletion-abutting-end", "deletion-spanning-insertion-slot", "both-gap-columns", "form:sam", "form:msa"])
 
+q, t = tiers(4, 1000, 16, 10000, floor_q=200, floor_t=2000, q_timeout=300)
+prop("C11", "TestC11", "exploration",
+     "Differential between commands on gofasta's own intermediate files: for every generated SAM + annotation, the row `sam variants` prints for a "
+     "query must be identical (same records, same order) to the row `variants` prints for the reference/query pair written by `sam toPairAlign` "
+     "(directory mode, file read back, --reference = SAM reference name), and, for queries without insertions, for the `toMultiAlign --pad` row placed "
+     "under the reference. Options varied: --append-snps, --start/--end (each alone or both), reference from file or from the annotation, GenBank or GFF3.",
+     "The toMultiAlign leg uses --pad: without it uncovered flanks become '-', which variants legitimately reads as deleted bases, so it would not be the same alignment.",
+     "property-based testing (rapid): differential / metamorphic relation between two commands",
+     VAR_GEN + " (SAM form only); non-trivial = a query with >= 1 indel and >= 1 nucleotide difference; distinct = hash of the case",
+     q, t, required_labels=["leg:toMultiAlign", "append-snps", "window", "reference-from-annotation", "format:gb", "format:gff"])
+
+q, t = tiers(4, 1200, 16, 12000, floor_q=200, floor_t=2000, q_timeout=300)
+prop("C13", "TestC13", "exploration",
+     "For snps, variants and sam variants the same input is run per-sequence and with --aggregate --threshold T. Expected aggregate = for each distinct "
+     "mutation string of the per-sequence output, (rows containing it)/(rows) as float64, printed %.9f, kept iff >= T — compared as a set of lines in "
+     "both directions; order must be non-decreasing in genomic position (explicit for nuc/ins/del/SNPs, any coordinate of the codon +-2 for aa). "
+     "Inputs are built so mutations recur (duplicated rows / record sets); T is 0, 1, c/n exactly (equal to an occurring frequency), or c/n +- 1e-6.",
+     "Oracle recomputed from gofasta's own per-sequence output, as the statement defines it; the reference record is excluded by the per-sequence command itself.",
+     "property-based testing (rapid): metamorphic relation aggregate == count(per-sequence)",
+     "C03 generator (snps) and the C04 generator (variants, msa and sam form) with duplicated sequences; non-trivial = >= 2 sequences, some mutation with "
+     "0 < frequency < 1 and the threshold excluding something; distinct = hash of the case",
+     q, t, required_labels=["kind:snps", "kind:variants", "form:msa", "form:sam", "threshold-binding", "partial-frequency", "threshold-equals-a-frequency-candidate"])
+
+q, t = tiers(4, 1200, 16, 12000, floor_q=150, floor_t=1500, q_timeout=300)
+prop("C14", "TestC14", "exploration",
+     "The annotation model is rendered as a GenBank flat file and as GFF3 in three dialects (segments on codon boundaries with phase 0, arbitrary "
+     "boundaries with spec-correct continuation phases, both), all five location shapes, CDS or mature_protein_region_of_CDS rows, with/without "
+     "##sequence-region and extra gene rows; the same alignment (MSA or SAM form) is annotated with both and, per sequence, the multiset of "
+     "mutation strings must be equal and each row ordered by position (order inside one position left free, as the statement says).",
+     "Only layouts expressible in both formats are generated (every feature named; same strand within a feature).",
+     "property-based testing (rapid): differential GenBank vs GFF3 rendering of one model",
+     VAR_GEN + "; non-trivial = an aa call inside a reverse or joined feature; distinct = hash of the case",
+     q, t, required_labels=["feat:reverse", "feat:joined", "feat:reverse-joined", "gff:spec-phases", "aa-call-in-reverse-or-joined-feature", "form:msa", "form:sam"])
+
+q, t = tiers(4, 500, 16, 5000, floor_q=200, floor_t=2000, q_timeout=400)
+prop("C15", "TestC15", "exploration",
+     "Algebraic relations between gofasta's own runs: toMultiAlign --start/--end (each alone, both; every window when L <= 12) == columns of the untrimmed "
+     "output (with --pad: N outside); legacy --trim --trimstart a --trimend b (binary) == --start a+1 --end b; toPairAlign --start/--end == untrimmed pair "
+     "cut from the column of base s to that of base e; --wrap w for both commands un-wrapped == unwrapped and every line but the last has exactly w "
+     "characters; variants / sam variants --start, --end, both == unrestricted row filtered by s <= p <= e (explicit p for nuc/ins/del, first base of the "
+     "codon for aa; codons spanning a join are left free); variants reading the alignment from a real stdin pipe (reference first) == reading the file.",
+     "aa records of codons that span a join have no position pinned by the statement and are allowed either way near the window edge.",
+     "property-based testing (rapid): metamorphic/algebraic relations between runs, bounded-exhaustive windows for small references; process-level for cobra-layer flags and stdin",
+     "C01/C02/C04 generators; non-trivial = a window strictly inside the reference (toma/topa), wrap shorter than the row, a window that keeps some but not all "
+     "mutations, legacy-flag and stdin runs; distinct = hash of the case",
+     q, t, need_bin=True, required_labels=["kind:toma-window", "kind:topa-window", "kind:wrap", "kind:variants-window", "kind:legacy-flags", "kind:stdin",
+                                           "all-windows-enumerated", "start-alone", "end-alone", "both-bounds", "pad"])
+
 NOT_CLAIMED = {}
 
 
